@@ -678,3 +678,80 @@ Proof.
     replace (k + length (filter (has_insert ips) (seq 0 (S k))))%nat
       with (0 + length (filter (has_insert ips) (seq 0 (S k))) + k)%nat by lia. exact HI.
 Qed.
+
+(* ---- ... and of the inserted midpoints ---- *)
+Lemma cnt_from_ge_last ips : forall j k0, (length (points_at (k0 + j) ips) <= cnt_from ips k0 j)%nat.
+Proof.
+  induction j as [|j IH]; intros k0; cbn [cnt_from]; [rewrite Nat.add_0_r; lia|].
+  specialize (IH (S k0)). replace (S k0 + j)%nat with (k0 + S j)%nat in IH by lia. lia.
+Qed.
+Lemma insert_multi_before ips : forall (vs : list (vec3 R)) k0 pre j v p, nth_error vs j = Some v ->
+  points_at (k0 + j) ips = [p] ->
+  nth_error (pre ++ insert_multi_from k0 vs ips) (length pre + cnt_from ips k0 j + j - 1) = Some p.
+Proof.
+  induction vs as [|v0 r IH]; intros k0 pre j v p Hj Hp; [destruct j; discriminate|].
+  cbn [insert_multi_from]. destruct j as [|j]; cbn [nth_error cnt_from] in *.
+  - rewrite Nat.add_0_r in Hp. rewrite Hp. cbn [length app].
+    rewrite nth_error_app2 by lia. replace (length pre + 1 + 0 - 1 - length pre)%nat with 0%nat by lia. reflexivity.
+  - replace (k0 + S j)%nat with (S k0 + j)%nat in Hp by lia.
+    pose proof (cnt_from_ge_last ips j (S k0)) as Hge. rewrite Hp in Hge. cbn [length] in Hge.
+    specialize (IH (S k0) (pre ++ points_at k0 ips ++ [v0]) j v p Hj Hp).
+    rewrite !app_length in IH. cbn [length] in IH.
+    replace (length pre + (length (points_at k0 ips) + cnt_from ips (S k0) j) + S j - 1)%nat
+      with (length pre + (length (points_at k0 ips) + 1) + cnt_from ips (S k0) j + j - 1)%nat by lia.
+    rewrite <- IH. f_equal. rewrite <- !app_assoc. reflexivity.
+Qed.
+Lemma points_at_single q p : forall ips : list (nat * vec3 R), NoDup (map fst ips) -> In (q, p) ips ->
+  points_at q ips = [p].
+Proof.
+  induction ips as [|[k p'] r IH]; intros Hn Hin; [destruct Hin|].
+  cbn [map fst] in Hn. inversion Hn as [|? ? Hnin Hnd]; subst.
+  unfold points_at in *. cbn [filter fst]. destruct Hin as [E|Hin].
+  - injection E as -> ->. rewrite Nat.eqb_refl. cbn [map snd]. f_equal.
+    destruct (points_at_absent q r Hnin) as [E _]. unfold points_at in E. exact E.
+  - destruct (Nat.eqb_spec k q) as [->|Hne]; [|apply IH; assumption].
+    exfalso. apply Hnin. apply in_map_iff. exists (q, p). split; [reflexivity|exact Hin].
+Qed.
+
+Lemma bisect_inserted_indices pl idx r : bisect ROps pl idx = Ok r -> NoDup (map (edge_end pl) idx) ->
+  forall j i s, nth_error idx j = Some i -> nth_error (pl_segments pl) i = Some s ->
+    (edge_end pl i < length (pv pl))%nat ->
+    exists m, nth_error (snd r) j = Some m /\ nth_error (pv (fst (fst r))) m = Some (seg_mid ROps s).
+Proof.
+  intros H Hnd j i s Hj Hs Hk. unfold bisect in H. destruct (existsb _ idx); [discriminate|]. injection H as <-.
+  cbn [fst snd pv].
+  set (ips := map (fun i => (edge_end pl i, match nth_error (pl_segments pl) i with Some s => seg_mid ROps s | None => vzero ROps end)) idx).
+  assert (Hn : NoDup (map fst ips)) by (unfold ips; rewrite map_map; cbn [fst]; exact Hnd).
+  assert (Hip : nth_error ips j = Some (edge_end pl i, seg_mid ROps s)).
+  { unfold ips. rewrite nth_error_map, Hj. cbn [option_map]. rewrite Hs. reflexivity. }
+  set (k := edge_end pl i) in *.
+  destruct (nth_error (pv pl) k) as [v|] eqn:Ev; [|apply nth_error_None in Ev; lia].
+  exists (k + length (filter (has_insert ips) (seq 0 (S k))) - 1)%nat. split.
+  - rewrite nth_error_map, Hip. cbn [option_map fst]. f_equal. f_equal. f_equal.
+    unfold cum_offsets. apply (nth_map_seq (fun k0 => length (filter (has_insert ips) (seq 0 (S k0))))). exact Hk.
+  - assert (Hp : points_at (0 + k) ips = [seg_mid ROps s]).
+    { apply points_at_single; [exact Hn|]. eapply nth_error_In. exact Hip. }
+    pose proof (insert_multi_before ips (pv pl) 0%nat [] k v _ Ev Hp) as HI. cbn [app length] in HI.
+    rewrite (cnt_from_filter ips Hn) in HI.
+    replace (k + length (filter (has_insert ips) (seq 0 (S k))) - 1)%nat
+      with (0 + length (filter (has_insert ips) (seq 0 (S k))) + k - 1)%nat by lia. exact HI.
+Qed.
+
+Lemma edge_end_in_range (pl : polyline R) i : (i < length (pl_segments pl))%nat -> (edge_end pl i < length (pv pl))%nat.
+Proof.
+  intros H. rewrite pl_segments_length in H. unfold edge_end.
+  destruct (pv pl) as [|h t]; [lia|]. cbn [length] in *.
+  destruct (pclosed pl); cbn [andb]; [destruct (Nat.eqb_spec (S i) (S (length t))); lia|lia].
+Qed.
+(* ret_new_indices, when no segment is chosen twice: every original vertex and every inserted midpoint is found at
+   its reported new index *)
+Lemma bisect_new_indices pl idx r : bisect ROps pl idx = Ok r -> NoDup (map (edge_end pl) idx) ->
+  (forall k v, nth_error (pv pl) k = Some v ->
+     exists i, nth_error (snd (fst r)) k = Some i /\ nth_error (pv (fst (fst r))) i = Some v) /\
+  (forall j i s, nth_error idx j = Some i -> nth_error (pl_segments pl) i = Some s ->
+     exists m, nth_error (snd r) j = Some m /\ nth_error (pv (fst (fst r))) m = Some (seg_mid ROps s)).
+Proof.
+  intros H Hnd. split; [exact (bisect_orig_indices pl idx r H Hnd)|].
+  intros j i s Hj Hs. apply (bisect_inserted_indices pl idx r H Hnd j i s Hj Hs).
+  apply edge_end_in_range. apply nth_error_Some. congruence.
+Qed.
